@@ -42,7 +42,7 @@ POSITIONS = ["root", "class_property", "untyped_property", "items", "tuple_item"
              "file_ref", "pattern_property", "file_ref_twice"]
 REQUIRED_COUNTERS = (
     ["cells", "parsed.default_equal", "json.default_equal", "python.default_equal", "control.no_default",
-     "not_shared.checked", "later_visits.default_equal", "descriptions", "descriptions.hostile", "docstring.equal", "falsy_default_cells"]
+     "not_shared.checked", "later_visits.default_equal", "descriptions", "descriptions.hostile", "docstring.equal", "falsy_default_cells", "twins.default_stays"]
     + [f"shape.{s}" for s in SHAPES] + [f"pos.{p}" for p in POSITIONS]
 )
 EXHAUSTIVE_SUBSPACES = {
@@ -339,6 +339,50 @@ def shared_definition(ctx, sut, serial, default_a, default_b):
         ctx.witness("default_shared_between_positions", case, "; ".join(problems))
 
 
+def twin_objects(ctx, sut, serial, default, spelling, plain_first):
+    """Two object schemas with the same title and the same body; exactly one of them declares a default
+    (with `type` spelled as a string or as a one-element list).  The default belongs to that one only -
+    whichever of the two the parser meets first."""
+    body = {"title": f"Twin{serial}", "properties": {"v": {"type": "integer"}}}
+    plain = {"type": "object", **copy.deepcopy(body)}
+    holder = {"type": ["object"] if spelling == "list" else "object", **copy.deepcopy(body),
+              "default": copy.deepcopy(default)}
+    props = {"p": plain, "q": holder} if plain_first else {"q": holder, "p": plain}
+    doc = {"type": "object", "title": f"TwinRoot{serial}", "properties": props}
+    case = {"shape": "twin_objects", "schema": copy.deepcopy(doc)}
+    ctx.evaluation()
+    ctx.count("twins.checked")
+    try:
+        element = sut.parse_direct(doc)
+        text = sut.serialize_json(element)
+    except Exception as exc:  # pylint: disable=broad-except
+        ctx.witness("parse_or_locate_failed", case, f"{type(exc).__name__}: {exc!r}"[:300])
+        return
+    problems = []
+    got_plain = getattr(element.properties["p"].element, "default", sut.NotPassed())
+    got_holder = getattr(element.properties["q"].element, "default", sut.NotPassed())
+    if not isinstance(got_plain, sut.NotPassed):
+        problems.append(f"the schema without default now has {got_plain!r}")
+    if isinstance(got_holder, sut.NotPassed) or not same(got_holder, default):
+        problems.append(f"the schema declaring {default!r} has {got_holder!r}")
+
+    def follow(node):
+        while isinstance(node, dict) and "$ref" in node:
+            node = text.get("definitions", {}).get(node["$ref"].rsplit("/", 1)[-1], {})
+        return node
+
+    json_plain = follow(text.get("properties", {}).get("p", {}))
+    json_holder = follow(text.get("properties", {}).get("q", {}))
+    if "default" in json_plain:
+        problems.append(f"JSON image of the schema without default has {json_plain['default']!r}")
+    if "default" not in json_holder or not same(json_holder["default"], default):
+        problems.append(f"JSON image of the schema declaring {default!r} has {json_holder.get('default', '<none>')!r}")
+    if problems:
+        ctx.witness("default_moved_between_twins", case, "; ".join(problems))
+    else:
+        ctx.count("twins.default_stays")
+
+
 def description_case(ctx, sut, text, serial, hostile):
     doc = {"type": "object", "title": f"Desc{serial}", "description": text,
            "properties": {"child": {"type": "object", "title": f"Inner{serial}", "description": text[::-1]}}}
@@ -388,7 +432,7 @@ def description_case(ctx, sut, text, serial, hostile):
 
 
 def random_description(rng):
-    pool = "ab \"'\\\n\t{}%é日\r\x00#:"
+    pool = "ab \"'\\\n\t{}%é日\r\x00#:\U0001F600\U00010348\ufffe"
     text = "".join(rng.choice(pool) for _ in range(rng.choice([rng.randint(0, 12), rng.randint(40, 160)])))
     if rng.random() < 0.2:
         text += rng.choice(['"', '\\', '"""', "'''", "\n", " "])
@@ -429,6 +473,12 @@ def run_shard(ctx):
         if rng.random() < 0.2:
             serial += 1
             shared_definition(ctx, sut, serial, rng.choice(DEFAULTS), rng.choice(DEFAULTS))
+    for idx, default in enumerate(DEFAULTS):
+        for spelling in ("string", "list"):
+            for plain_first in (True, False):
+                if (idx * 4 + (spelling == "list") * 2 + plain_first) % ctx.nshards == ctx.shard:
+                    serial += 1
+                    twin_objects(ctx, sut, serial, default, spelling, plain_first)
     pool = gen_docs.DESCRIPTIONS_PLAIN + gen_docs.DESCRIPTIONS_HOSTILE
     for idx, text in enumerate(pool):
         if idx % ctx.nshards == ctx.shard:
